@@ -32,6 +32,7 @@ func runC17(c *Ctx) {
 	c17Unquote(c)
 	c17QuotedVerbatim(c)
 	c17TokenizerVerbatim(c)
+	c17UnquoteDecoded(c)
 }
 
 // c17Unquote implements C17.unquote-multibyte and C17.unquote-errors.
@@ -426,6 +427,35 @@ func c18Sorted(c *Ctx) {
 		}
 	}
 	c.Check(rule, fnName(mm)+"|sorted-before-emission", okm, mm.Pos(), "the mandatory key list is emitted in ascending order")
+	// … ascending by KEY NUMBER (RFC 9460 §8: "in strictly increasing numeric order"): the comparison function orders
+	// integers looked up for the names, not the names (seed c18r4i sorted the names alphabetically to find duplicates
+	// by adjacency: "port|ipv4hint" then compiles to 00 04 00 03)
+	numeric := false
+	for _, cl := range mm.AnonFuncs {
+		if cl.Signature.Results().Len() != 1 || cl.Signature.Params().Len() != 2 {
+			continue
+		}
+		for _, leaf := range resultLeaves(cl, 0) {
+			bo, ok := leaf.V.(*ssa.BinOp)
+			if !ok || (bo.Op != token.LSS && bo.Op != token.GTR) {
+				continue
+			}
+			if bt, ok := bo.X.Type().Underlying().(*types.Basic); ok && bt.Info()&types.IsInteger != 0 {
+				fromTable := false
+				for v := range backSlice(bo.X, nil) {
+					if lk, ok := v.(*ssa.Lookup); ok {
+						if _, isMap := lk.X.Type().Underlying().(*types.Map); isMap {
+							fromTable = true
+						}
+					}
+				}
+				if fromTable {
+					numeric = true
+				}
+			}
+		}
+	}
+	c.Check(rule, fnName(mm)+"|sorted-by-key-number", numeric, mm.Pos(), "the comparison function of the sort compares the key numbers looked up for the names")
 }
 
 func c18Checks(c *Ctx) {
@@ -785,4 +815,79 @@ func lineVerbatim(c *Ctx, rule, pkg string, names ...string) {
 		walk(fn, &bad, &seen)
 		c.Check(rule, fnName(fn)+"|scanned-line-not-rewritten", len(bad) == 0 && seen > 0, fn.Pos(), fmt.Sprintf("%d scanner reads; rewriting calls on a scanned line: %v", seen, bad))
 	}
+}
+
+// c17UnquoteDecoded implements C17.unquote-decoded: on the slow path of Bunquote every byte of the output is produced
+// from the rune that strconv.UnquoteChar decoded (as one byte, or as its UTF-8 encoding) — never copied from the
+// input position. strconv.UnquoteChar already returns utf8.RuneError for an invalid byte AND for a well-formed
+// U+FFFD; code that "restores the raw byte" on RuneError (seed c17r4h) cannot tell the two apart and truncates the
+// three-byte encoding of a genuine U+FFFD to its first byte.
+func c17UnquoteDecoded(c *Ctx) {
+	rule := "C17.unquote-decoded"
+	c.Rule(rule, "A8 in quote.Bunquote: every append to the output buffer inside the decoding loop takes bytes derived from the rune result of strconv.UnquoteChar (byte(c), or the buffer utf8.EncodeRune / AppendRune filled from c); no appended value is an element or sub-slice of the input")
+	fn := c.Func("dnsdata/quote", "Bunquote")
+	c.Examined(fn)
+	var uq *ssa.Call
+	for _, ci := range callInstrs(fn) {
+		if f := calleeOf(ci.Common()); f != nil && f.Name() == "UnquoteChar" {
+			uq, _ = ci.(*ssa.Call)
+		}
+	}
+	if uq == nil {
+		c.Undecided(rule, "Bunquote|decoder", fn.Pos(), "strconv.UnquoteChar call not found")
+		return
+	}
+	n := 0
+	for _, ci := range callInstrs(fn) {
+		ap := isBuiltinCall(valueOfCall(ci), "append")
+		if ap == nil || !isByteSlice(ap.Type()) || !inCycle(ci.Block()) || len(ap.Call.Args) != 2 {
+			continue
+		}
+		n++
+		fromRune, fromInput := false, false
+		for v := range backSlice(ap.Call.Args[1], nil) {
+			if ex, ok := v.(*ssa.Extract); ok && ex.Tuple == ssa.Value(uq) && ex.Index == 0 {
+				fromRune = true
+			}
+			// utf8.EncodeRune(tmp[:], c) fills tmp from c: the call is in the slice of tmp through the Alloc
+			if call, ok := v.(*ssa.Call); ok {
+				if f := calleeOf(call.Common()); f != nil && (f.Name() == "EncodeRune" || f.Name() == "AppendRune") {
+					for _, a := range call.Call.Args {
+						for w := range backSlice(a, nil) {
+							if ex, ok := w.(*ssa.Extract); ok && ex.Tuple == ssa.Value(uq) && ex.Index == 0 {
+								fromRune = true
+							}
+						}
+					}
+				}
+			}
+			switch x := v.(type) {
+			case *ssa.Lookup: // s[i] on the input string
+				fromInput = true
+				_ = x
+			case *ssa.IndexAddr:
+				if p, ok := x.X.(*ssa.Parameter); ok && p.Parent() == fn {
+					fromInput = true
+				}
+			}
+		}
+		// the scratch array written by EncodeRune: look for an EncodeRune call whose destination aliases the appended slice
+		if !fromRune {
+			if sl, ok := ap.Call.Args[1].(*ssa.Slice); ok {
+				for _, cj := range callInstrs(fn) {
+					if f := calleeOf(cj.Common()); f != nil && f.Name() == "EncodeRune" && len(cj.Common().Args) == 2 {
+						if d, ok := cj.Common().Args[0].(*ssa.Slice); ok && d.X == sl.X {
+							for w := range backSlice(cj.Common().Args[1], nil) {
+								if ex, ok := w.(*ssa.Extract); ok && ex.Tuple == ssa.Value(uq) && ex.Index == 0 {
+									fromRune = true
+								}
+							}
+						}
+					}
+				}
+			}
+		}
+		c.Check(rule, fmt.Sprintf("Bunquote|append#%d|from-the-decoded-rune", n), fromRune && !fromInput, ci.Pos(), fmt.Sprintf("derived from the decoded rune: %v; copied from the input: %v", fromRune, fromInput))
+	}
+	c.Floor(rule, 2)
 }
